@@ -28,8 +28,7 @@ func harnessRegistry() {
 	regOnce.Do(func() {
 		// Y, Z, I: distinct types that are assignable to one another ([]byte, a named []byte type, interface{}); the
 		// framework compares produced and consumed types for identity
-		tys := map[string]reflect.Type{"A": reflect.TypeOf(""), "B": reflect.TypeOf(0), "E": reflect.TypeOf(&firebolt.EventError{}), "N": nil,
-			"Y": reflect.TypeOf([]byte(nil)), "Z": reflect.TypeOf(namedBytes(nil)), "I": reflect.TypeOf((*interface{})(nil)).Elem()}
+		tys := harnessTys
 		for _, c := range []string{"A", "B", "E", "Y", "Z", "I"} {
 			for _, p := range []string{"A", "B", "E", "N", "Y", "Z", "I"} {
 				node.GetRegistry().RegisterNodeType("t_"+c+"_"+p, func() node.Node { return nil }, tys[c], tys[p])
@@ -42,6 +41,9 @@ func harnessRegistry() {
 }
 
 type namedBytes []byte
+
+var harnessTys = map[string]reflect.Type{"A": reflect.TypeOf(""), "B": reflect.TypeOf(0), "E": reflect.TypeOf(&firebolt.EventError{}), "N": nil,
+	"Y": reflect.TypeOf([]byte(nil)), "Z": reflect.TypeOf(namedBytes(nil)), "I": reflect.TypeOf((*interface{})(nil)).Elem()}
 
 type cnode struct {
 	id, name     string
@@ -85,6 +87,9 @@ func genConfig(r *rng, n int, tier string, emit func(string)) {
 		"cfg s_Y - 0 2 N a t_Y_Z 0 0 1 0 N b t_Z_I 0 0 1 0 N c t_I_N 0 0 0 0 N d t_Z_N 0 0 0 0", // second root consumes a type the source's is assignable to
 		"cfg s_Y - 0 1 N a t_Y_Y 0 0 1 0 N b t_I_A 0 0 0 0",                                     // child consumes interface{}
 		"cfg s_Z - 0 1 N a t_Z_Y 0 0 1 0 N b t_Z_A 0 0 0 0",
+		"R q0 A B RS qs A cfg qs - 2 1 N a q0 0 0 1 0 N b t_B_N 0 0 0 0",
+		"R q0 B A RS qs B cfg qs - 9 1 N a q0 0 0 1 0 N b t_A_N 0 0 0 0", // the same names registered again with other types
+		"R q0 B A RS qs B cfg qs - 0 1 N a q0 0 0 1 0 N b t_B_N 0 0 0 0", // consistent only under the earlier registration
 	} {
 		emit(c)
 	}
@@ -178,7 +183,38 @@ func genConfig(r *rng, n int, tier string, emit func(string)) {
 		if pe(10) {
 			tr = r.pickS("amqp", "Kafka", "~")
 		}
-		parts := []string{"cfg", srcName, tr, strconv.Itoa(int(r.pick(0, 0, 5, -1, 30))), strconv.Itoa(nroots)}
+		// a few type names are registered by the case itself, with types that change from case to case (the same name
+		// registered again with other types): the configuration is judged by the latest registration
+		var regs []string
+		if r.chance(30) {
+			seen := map[string]string{}
+			for _, cn := range all {
+				if strings.HasPrefix(cn.name, "t_") && len(cn.name) == 5 && r.chance(40) {
+					q := fmt.Sprintf("q%d", r.intn(4))
+					ty := cn.name[2:3] + " " + cn.name[4:5]
+					if prev, ok := seen[q]; ok && prev != ty {
+						continue
+					}
+					if pe(15) {
+						ty = r.pickS("A", "B", "Y") + " " + r.pickS("A", "B", "N") // registered with other types than the tree needs
+					}
+					if _, ok := seen[q]; !ok {
+						seen[q] = ty
+						regs = append(regs, "R", q, ty)
+					}
+					cn.name = q
+				}
+			}
+			if strings.HasPrefix(srcName, "s_") && len(srcName) == 3 && srcName != "s_X" && r.chance(40) {
+				ty := srcName[2:3]
+				if pe(20) {
+					ty = r.pickS("A", "B", "Z")
+				}
+				regs = append(regs, "RS", "qs", ty)
+				srcName = "qs"
+			}
+		}
+		parts := append(regs, "cfg", srcName, tr, strconv.Itoa(int(r.pick(0, 0, 5, -1, 30, 1, 9))), strconv.Itoa(nroots))
 		for _, rt := range roots {
 			rt.flat(&parts)
 		}
@@ -282,6 +318,19 @@ var envNames = []string{"FBV_NODE_NAME", "fbv_node_name", "FBV_N2", "Fbv_Name_x9
 func execConfig(input string) (res string) {
 	harnessRegistry()
 	toks := strings.Fields(input)
+	// leading registrations: "R <name> <consumes> <produces>" / "RS <name> <produces>" register (or register again, with
+	// whatever types this case gives them) a type name, as an application replacing a type or a second pipeline would
+	for len(toks) > 0 && (toks[0] == "R" || toks[0] == "RS") {
+		if toks[0] == "R" && len(toks) >= 4 {
+			node.GetRegistry().RegisterNodeType(toks[1], func() node.Node { return nil }, harnessTys[toks[2]], harnessTys[toks[3]])
+			toks = toks[4:]
+		} else if toks[0] == "RS" && len(toks) >= 3 {
+			node.GetRegistry().RegisterSourceType(toks[1], func() node.Source { return nil }, harnessTys[toks[2]])
+			toks = toks[3:]
+		} else {
+			return "bad-input"
+		}
+	}
 	if len(toks) < 5 || toks[0] != "cfg" {
 		return "bad-input"
 	}
